@@ -344,7 +344,8 @@ pub fn factor_quartic_inner(
     };
     let calc_eps_t = |a1, b1, a2, b2| calc_eps_q(a1, b1, a2, b2) + eps_rel(b1 * b2, d);
     let disc = 9. * a * a - 24. * b;
-    let s = if disc >= 0.0 {
+    // When a and b are both zero the first form is 0/0; the second is the same shift then.
+    let s = if disc >= 0.0 && (a != 0.0 || b != 0.0) {
         -2. * b / (3. * a + disc.sqrt().copysign(a))
     } else {
         -0.25 * a
